@@ -19,7 +19,9 @@ import (
 	"os/exec"
 	"path/filepath"
 	"runtime"
+	"runtime/debug"
 	"sort"
+	"strconv"
 	"strings"
 	"sync"
 	"time"
@@ -129,6 +131,9 @@ func firstFrames(stack string, n int) string {
 }
 
 func main() {
+	// unbounded recursion in the code under test should die in a fraction of a
+	// second, not after filling the default 1 GB
+	debug.SetMaxStack(96 << 20)
 	if len(os.Args) < 2 {
 		fmt.Fprintln(os.Stderr, "usage: simrun check|worker|replay ...")
 		os.Exit(2)
@@ -140,6 +145,8 @@ func main() {
 		os.Exit(cmdWorker(os.Args[2:]))
 	case "replay":
 		os.Exit(cmdReplay(os.Args[2:]))
+	case "fatalrun":
+		os.Exit(cmdFatalRun(os.Args[2:]))
 	case "fingerprints":
 		os.Exit(cmdFingerprints(os.Args[2:]))
 	case "engines":
@@ -213,9 +220,9 @@ func cmdWorker(args []string) int {
 			break
 		}
 		idx := *from + i**step
-		if simrt.RaceBuild {
-			out.Encode(workerOut{Start: &idx})
-		}
+		// the parent learns which run a worker was in when it died (race report
+		// with halt_on_error, fatal runtime error)
+		out.Encode(workerOut{Start: &idx})
 		c := simrt.NewSearchChooser(*seed, idx)
 		res := runOne(e, c, -1, o, stats, false)
 		nruns++
@@ -268,6 +275,10 @@ type replayFile struct {
 	// history makes detection depend on what the process did before): the
 	// worker's index sequence from, from+step, ... up to Run.
 	History *workerHistory `json:"worker_history,omitempty"`
+	// Fatal: the run ends in a fatal error of the Go runtime (stack overflow by
+	// unbounded recursion, ...) that kills the process; it is replayed in a
+	// child process, and "reproduced" means the child dies the same way.
+	Fatal bool `json:"fatal,omitempty"`
 }
 
 type workerHistory struct {
@@ -312,6 +323,26 @@ func cmdReplay(args []string) int {
 		}
 		if !*quiet {
 			fmt.Println("replay did not reproduce the recorded race report on this tree")
+		}
+		return 0
+	}
+	if rf.Fatal && os.Getenv("VERIF_FATAL_CHILD") == "" {
+		self, _ := os.Executable()
+		c := exec.Command(self, "replay", "-file", *file, "-json", "-known", *known)
+		c.Env = append(os.Environ(), "VERIF_FATAL_CHILD=1")
+		var eb strings.Builder
+		c.Stderr = &eb
+		err := c.Run()
+		got, fromCode := fatalClass(eb.String())
+		if err != nil && fromCode && "fatal-"+sanitize(got) == rf.Class {
+			if !*quiet {
+				fmt.Printf("the child process replaying the choice list died again: fatal error: %s\n%s\n", got, fatalTop(eb.String()))
+				fmt.Printf("VIOLATION property=%s replay=%s\n", rf.Property, *file)
+			}
+			return 1
+		}
+		if !*quiet {
+			fmt.Println("replay did not reproduce the recorded fatal error on this tree")
 		}
 		return 0
 	}
@@ -389,6 +420,7 @@ func cmdCheck(args []string) int {
 	var wg sync.WaitGroup
 	trouble := false
 	var raceFails []*raceFail
+	var fatalFails []*fatalFail
 	launch := func(bin string, w, nw int, runs uint64, secs float64, enumN int, tag string) {
 		defer wg.Done()
 		per := (runs + uint64(nw) - 1) / uint64(nw)
@@ -404,11 +436,7 @@ func cmdCheck(args []string) int {
 				"-enum-from", fmt.Sprint(w), "-enum-step", fmt.Sprint(nw), "-enum-n", fmt.Sprint(enumN)}
 			cmd := exec.Command(bin, a...)
 			var errBuf strings.Builder
-			if tag == "" {
-				cmd.Stderr = os.Stderr
-			} else {
-				cmd.Stderr = &errBuf
-			}
+			cmd.Stderr = &errBuf
 			cmd.Env = append(os.Environ(), "GORACE=halt_on_error=1 exitcode=66")
 			stdout, _ := cmd.StdoutPipe()
 			if err := cmd.Start(); err != nil {
@@ -475,7 +503,24 @@ func cmdCheck(args []string) int {
 				from = lastStart + uint64(nw)
 				continue
 			}
-			fmt.Fprintf(os.Stderr, "worker %d (%s) exited: %v\n%s", w, filepath.Base(bin), err, errBuf.String())
+			if class, fromCode := fatalClass(errBuf.String()); fromCode && started > 0 && lastStart < 1<<40 {
+				// the code under test ran into a fatal runtime error: a finding about
+				// the code, confirmed and reported below; go on after that run
+				mu.Lock()
+				fatalFails = append(fatalFails, &fatalFail{Idx: lastStart, Class: class, Report: errBuf.String()})
+				if tag == "" {
+					nruns += int64(started)
+				}
+				mu.Unlock()
+				enumN = 0
+				if started >= per {
+					return
+				}
+				per -= started
+				from = lastStart + uint64(nw)
+				continue
+			}
+			fmt.Fprintf(os.Stderr, "worker %d (%s) exited: %v\n%s", w, filepath.Base(bin), err, trunc(errBuf.String(), 20000))
 			mu.Lock()
 			trouble = true
 			mu.Unlock()
@@ -516,6 +561,14 @@ func cmdCheck(args []string) int {
 		keys = append(keys, k)
 	}
 	sort.Strings(keys)
+	if len(fatalFails) > 0 && len(keys) > 0 {
+		// the code under test can kill the process it runs in: nothing of it is
+		// executed in this process any more (shrinking does that); the fatal
+		// error is the finding that is reported
+		fmt.Printf("note: %d other violation class(es) %v were seen but are not triaged: the code under test ends some runs in a fatal runtime error, which shrinking in this process would not survive\n", len(keys), keys)
+		keys = nil
+		raceFails = nil
+	}
 	o := opts{tier: *tier, race: false, known: kf}
 	nviol := 0
 	replayTrouble := false
@@ -692,6 +745,62 @@ func cmdCheck(args []string) int {
 		reports = append(reports, map[string]any{"key": v.Key(), "msg": trunc(v.Msg, 2000), "replay": path, "choices": len(min), "original_choices": len(plain.Choices)})
 	}
 
+	// ---- fatal runtime errors of the code under test (they kill the process: every
+	// confirmation, shrinking step and replay is a child process)
+	fatalSeen := map[string]bool{}
+	for _, ff := range fatalFails {
+		if fatalSeen[ff.Class] {
+			continue
+		}
+		fatalSeen[ff.Class] = true
+		v := &engine.Violation{Property: *prop, Oracle: "invariant", Class: "fatal-" + sanitize(ff.Class),
+			Msg: "the code under test ends in a fatal error of the Go runtime (the process dies; no recover can catch it): " + ff.Class + "\n" + fatalTop(ff.Report)}
+		self, _ := os.Executable()
+		rec := filepath.Join(os.TempDir(), fmt.Sprintf("verif-fatal-%d-%d.choices", os.Getpid(), ff.Idx))
+		cmd := exec.Command(self, "fatalrun", "-engine", *eng, "-tier", *tier, "-seed", fmt.Sprint(*seed), "-idx", fmt.Sprint(ff.Idx), "-known", *known, "-record", rec)
+		var eb strings.Builder
+		cmd.Stderr = &eb
+		err := cmd.Run()
+		cls, _ := fatalClass(eb.String())
+		var choices []int
+		if b, rerr := os.ReadFile(rec); rerr == nil {
+			for _, f := range strings.Fields(string(b)) {
+				n, _ := strconv.Atoi(f)
+				choices = append(choices, n)
+			}
+		}
+		os.Remove(rec)
+		f := &runResult{Idx: ff.Idx, Param: -1, Choices: choices}
+		fatalReplay := func(ch []int) bool {
+			tmp := writeReplay(os.TempDir(), *prop, *eng, v, *seed, f, ch, nil, *tier, false, *repoHead, "")
+			defer os.Remove(tmp)
+			markFatal(tmp)
+			c := exec.Command(self, "replay", "-file", tmp, "-json", "-known", *known)
+			c.Env = append(os.Environ(), "VERIF_FATAL_CHILD=1")
+			var e2 strings.Builder
+			c.Stderr = &e2
+			if c.Run() == nil {
+				return false
+			}
+			got, fromCode := fatalClass(e2.String())
+			return fromCode && got == ff.Class
+		}
+		if err == nil || cls != ff.Class || !fatalReplay(choices) || !fatalReplay(choices) {
+			fmt.Fprintf(os.Stderr, "harness trouble: fatal error %q of run %d does not reproduce in a fresh process\n%s\n", ff.Class, ff.Idx, trunc(ff.Report, 4000))
+			raceTrouble = true
+			continue
+		}
+		min := shrink(choices, func(ch []int) (*runResult, bool) {
+			return &runResult{Choices: ch}, fatalReplay(ch)
+		}, 40)
+		path := writeReplay(*replays, *prop, *eng, v, *seed, f, min, nil, *tier, false, *repoHead, "")
+		markFatal(path)
+		fmt.Printf("VIOLATION property=%s replay=%s\n", *prop, path)
+		fmt.Printf("  %s: %s\n", v.Key(), v.Msg)
+		nviol++
+		reports = append(reports, map[string]any{"key": v.Key(), "msg": trunc(v.Msg, 2000), "replay": path, "choices": len(min), "original_choices": len(choices)})
+	}
+
 	// ---- known findings hit
 	var knownHit []string
 	for _, k := range kf {
@@ -792,6 +901,117 @@ func cmdCheck(args []string) int {
 		// the machinery could not do its job (never a pass, never a VIOLATION)
 		return 2
 	}
+	return 0
+}
+
+type fatalFail struct {
+	Idx    uint64
+	Class  string
+	Report string
+}
+
+// fatalClass extracts the runtime's "fatal error: ..." line from a dead
+// worker's stderr and says whether the goroutine that was running belongs to
+// the code under test (first frame that is not the runtime's).
+func fatalClass(stderr string) (class string, fromCode bool) {
+	i := strings.Index(stderr, "fatal error: ")
+	if i < 0 {
+		return "", false
+	}
+	rest := stderr[i+len("fatal error: "):]
+	if j := strings.IndexByte(rest, '\n'); j >= 0 {
+		class, rest = rest[:j], rest[j:]
+	} else {
+		return rest, false
+	}
+	running := false
+	for _, l := range strings.Split(rest, "\n") {
+		if strings.HasPrefix(l, "goroutine ") {
+			if running {
+				break
+			}
+			running = strings.Contains(l, "[running]")
+			continue
+		}
+		if !running || l == "" || l[0] == '\t' {
+			continue
+		}
+		switch {
+		case strings.HasPrefix(l, "runtime."), strings.HasPrefix(l, "internal/"), strings.HasPrefix(l, "sync."), strings.HasPrefix(l, "strings."), strings.HasPrefix(l, "sort."):
+			continue
+		case strings.Contains(l, "/internal/verifsim/simsync."), strings.Contains(l, "/internal/verifsim/simrt.MapSeq"):
+			continue
+		}
+		return class, strings.HasPrefix(l, "github.com/juev/hledger-lsp/") && !strings.Contains(l, "/internal/verifsim/") && !strings.Contains(l, "/cmd/verifsim")
+	}
+	return class, false
+}
+
+// fatalTop is the head of the running goroutine's stack, function names only.
+func fatalTop(stderr string) string {
+	var out []string
+	running := false
+	for _, l := range strings.Split(stderr, "\n") {
+		if strings.HasPrefix(l, "goroutine ") {
+			if running {
+				break
+			}
+			running = strings.Contains(l, "[running]")
+			continue
+		}
+		if running && l != "" && l[0] != '\t' {
+			if i := strings.LastIndex(l, "("); i > 0 {
+				l = l[:i]
+			}
+			if len(out) == 0 || out[len(out)-1] != l {
+				out = append(out, l)
+			}
+			if len(out) == 10 {
+				break
+			}
+		}
+	}
+	return "    " + strings.Join(out, " <- ")
+}
+
+func markFatal(path string) {
+	b, err := os.ReadFile(path)
+	if err != nil {
+		return
+	}
+	var rf replayFile
+	if json.Unmarshal(b, &rf) == nil {
+		rf.Fatal = true
+		nb, _ := json.MarshalIndent(rf, "", " ")
+		os.WriteFile(path, nb, 0o644)
+	}
+}
+
+// cmdFatalRun executes one seeded run, appending every choice to a file as it
+// is drawn: the process is expected to die, the file is what survives.
+func cmdFatalRun(args []string) int {
+	fs := flag.NewFlagSet("fatalrun", flag.ExitOnError)
+	eng := fs.String("engine", "", "")
+	tier := fs.String("tier", "quick", "")
+	seed := fs.Uint64("seed", 1, "")
+	idx := fs.Uint64("idx", 0, "")
+	known := fs.String("known", "", "")
+	record := fs.String("record", "", "")
+	fs.Parse(args)
+	e := engine.Get(*eng)
+	if e == nil {
+		return 2
+	}
+	f, err := os.OpenFile(*record, os.O_CREATE|os.O_WRONLY|os.O_TRUNC, 0o644)
+	if err != nil {
+		fmt.Fprintln(os.Stderr, err)
+		return 2
+	}
+	c := simrt.NewSearchChooser(*seed, *idx)
+	c.Trace = func(label string, n, v int) { fmt.Fprintf(f, "%d\n", v) }
+	o := opts{tier: *tier, race: simrt.RaceBuild, known: engine.LoadKnown(*known)}
+	runOne(e, c, -1, o, engine.NewStats(), false)
+	f.Close()
 	return 0
 }
 
